@@ -247,7 +247,11 @@ theorem random_sources_exact :
 (a `//line` / `/*line` directive or the `// CFF_MAGIC_TOKEN` marker), and so is
 every string literal spelling a line directive.  A write of something that is
 not a string literal, or a `sourceMapped` condition of a shape the extractor
-does not recognise, is an `unknown` entry with `isComment = false`. -/
+does not recognise, is an `unknown` entry with `isComment = false`.  What is
+written may be spelled as a format string or as a concatenation: `literal` is the
+constant value, or the LEADING constant part of the concatenation (`"//line " +
+name + ":1\n"` gives `"//line "`); a concatenation that does not begin with a
+constant is `unknown`. -/
 theorem sourcemap_writes_are_comments :
     sourceMapWrites.all (·.isComment) = true := by
   decide
@@ -313,7 +317,11 @@ with the conjunct `ongoing < s.concurrency` (how "a job is ready" is spelled is 
 a change of the ready queue's data structure does not trip it): a job is
 dispatched only when one is ready and fewer than `concurrency` are executing
 (`<`, not `<=`: with `<=` the result channel can overflow after an early exit
-and leak a worker, and reports show more executing jobs than workers). -/
+and leak a worker, and reports show more executing jobs than workers).  The
+bound is the FIELD: a local bound once to `s.concurrency` (`c := s.concurrency`,
+never assigned again, the field written nowhere in the package) is printed by the
+extractor as `s.concurrency`; any other local stays spelled by its name and
+falsifies this. -/
 theorem dispatch_guard_exact :
     dispatchGuard.length = 1 ∧
     dispatchGuard.all (fun g => hasSub g "ongoing < s.concurrency" && !hasSub g "||") = true := by
@@ -444,7 +452,8 @@ theorem other_arms_unconditional :
 
 set_option maxRecDepth 4096 in -- marker texts are long strings
 /-- **C05.** (`drainOnExit`.)  When the Scheduler Loop's function exits it
-drains the enqueue channel (`for range s.enqueuec {}`, unconditionally), then
+drains the enqueue channel (`for range s.enqueuec {}`, or the same loop spelled
+`for { if _, ok := <-s.enqueuec; !ok { break } }`; unconditionally), then
 closes the ready channel, then closes `finishedc`: `Wait` is released only after
 every pending `Enqueue` has been, and the channel drained is the one `Enqueue`
 sends on. -/
@@ -507,7 +516,9 @@ order: mark the job done, decrement `pending` and `ongoing`; on an error record
 it in the job, leave at once unless continue-on-error (recording that error
 alone), else append it through the sentinel filter and mark the direct
 consumers invalid; then, error or not, notify the consumers.  This is also the
-pin-down of the arm: any other statement is an `unknown` marker. -/
+pin-down of the arm: any other statement is an `unknown` marker.  (A local
+closure called as a statement, `release(job)`, is read as its body with the
+parameter renamed to the argument, here and in every other marker list.) -/
 theorem result_arm_exact :
     names resultArmShape =
       nm ["bindJob", "setDone", "pendingDec", "ongoingDec", "errBranch", "setErr",
@@ -561,7 +572,9 @@ set_option maxRecDepth 4096 in -- marker texts are long strings
 did not end cleanly) posts the failure of the job it held and then starts its
 own replacement, unconditionally and itself (`go worker(readyc, donec)` with
 its own channels; not through the Scheduler Loop, which may already have
-exited, and not depending on a context). -/
+exited, and not depending on a context).  `deferGuard` is the test of the
+clean-exit flag, spelled `if clean { return }` ahead of the rest or as one
+`if !clean { ... }` around it. -/
 theorem worker_respawns :
     listHasSub (nm ["defer", "deferGuard", "deferPost", "respawn", "endDefer"]) (names workerShape) = true ∧
     (marked "respawn" workerShape).length = 1 := by
@@ -570,7 +583,9 @@ theorem worker_respawns :
 set_option maxRecDepth 4096 in -- marker texts are long strings
 /-- **C09.** (`workerChecksCtx`.)  The worker runs a job only in the last
 branch of a chain whose first test is `j.ctx.Err() != nil` (the job's own
-context), which skips the job with that error. -/
+context), which skips the job with that error.  (`if err := j.ctx.Err(); err !=
+nil`, or `e := j.ctx.Err()` bound once earlier in the loop body and tested by the
+first branch; if / else-if chain or tagless switch.) -/
 theorem worker_checks_ctx :
     oneMarked "ctxCheck" workerShape (fun d => hasSub d ".ctx.Err()" && hasSub d "!= nil") = true ∧
     (namesBefore "run" workerShape).contains "ctxSkip".toList = true ∧
@@ -598,7 +613,9 @@ theorem worker_check_order :
   decide
 
 set_option maxRecDepth 4096 in -- marker texts are long strings
-/-- **C01 C03 C06 C08 C09.** Pin-down of the worker. -/
+/-- **C01 C03 C06 C08 C09.** Pin-down of the worker.  (`rangeReady` is the loop
+receiving from the ready channel until it is closed: `for j := range readyc`, or
+`for { j, ok := <-readyc; if !ok { break }; ... }`.) -/
 theorem worker_shape_exact :
     names workerShape =
       nm ["defer", "deferGuard", "deferPost", "respawn", "endDefer",
@@ -725,7 +742,10 @@ def plainLit (file : String) (index depth : Nat) (parent : Option Nat) : TmplFn 
 templates the Done defer and the TaskSkipped sweep; in each task/predicate
 template the job closure with its defers; in slice/map the element closure and
 the End job (under `with .SliceEndFn` / `with .MapEndFn`), each with its recover
-defer.  A new literal (a new goroutine body, a new defer) shows up here. -/
+defer.  A new literal (a new goroutine body, a new defer) shows up here.  A
+`{{define}}` holding a func literal, a `defer`, a `go` or a `recover()` is expanded
+where it is included: its literals are listed under the including template, at
+the place of the include, and not under the define. -/
 theorem func_lits_known :
     tmplFuncLits =
       [ deferLit "flow/flow.go.tmpl" 0 0 none,
@@ -926,7 +946,9 @@ element closure of `parallel/slice.go.tmpl` / `map.go.tmpl` (includes of the
 `call...` templates followed) is covered by an `x := x` copy made in the loop
 body before the closure is created, under template conditions that are a
 prefix of the use's: whenever the use is emitted, so is the copy.  (`idx` is
-copied and used under `if .HasIndexParameter`.) -/
+copied and used under `if .HasIndexParameter`.)  A copy may be spelled `x := x`
+or pairwise in `x, y := x, y`; a copy made in both branches of one `{{if}} ..
+{{else}}` counts as made under the conditions of the `{{if}}` itself. -/
 theorem loop_vars_copied :
     loopVarUses.all (fun u => u.2.all (fun x =>
       loopVarCopies.any (fun c => c.1 == u.1 &&
